@@ -309,11 +309,12 @@ def duplicate_names(case, rng):
     case["duplicate_names"] = True
 
 
-def wip_history(mon, rng):
+def wip_history(mon, rng, all_pass=False):
     """The documented set-up -- behave.ini names the rerun formatter and its file -- and a `behave --wip` run (no -f on the command
     line): the file lists the @wip scenarios that did not succeed, a run without any removes the stale file."""
     from ..lab.subproc import Project
-    gen = {"outcomes": ["fail", "error", "undefined"], "max_features": 2, "p_nonpass": 0.3, "p_wip": 0.5, "p_stepless": 0.0, "max_items": 3}
+    # (all_pass: a program in which every step passes -- the run has nothing to list and must remove the stale file)
+    gen = {"outcomes": ["fail", "error", "undefined"], "max_features": 2, "p_nonpass": 0.0 if all_pass else 0.3, "p_wip": 0.5, "p_stepless": 0.0, "max_items": 3}
     case = RB.gen_case(rng, gen=gen, p_stop=0.0, p_dry=0.0, p_noskipped=0.0, tags=False)
     cfg = dict(case["cfg"], tags=["lit", "wip"], stop=True)
     pred = runmodel.predict(case["program"], cfg)
@@ -508,7 +509,7 @@ def run(spec, mon):
         case = RB.gen_case(rng, gen=gen, p_stop=0.0, p_dry=0.0, tags=False)
         subprocess_history(mon, rng, case)
     for i in range(2 if tier == "quick" else 20):
-        wip_history(mon, rng)
+        wip_history(mon, rng, all_pass=(i % 4 == 1))
 
 
 def replay(case, mon):
